@@ -62,7 +62,7 @@ def run(rep, tier, seed, pa):
     labels = ["A", "B", "C"]
     for ci in range(ncases):
         n, k = shapes[ci % len(shapes)]
-        pattern = rng.choice(["perturbed", "perturbed", "random", "disjoint", "intgrid"])
+        pattern = rng.choice(["perturbed", "random", "disjoint", "intgrid", "staircase", "staircase"])
         sizes = [rng.randrange(max(1, k - 3), k + 1) for _ in range(n)]
         units = gen.gen_units(rng, n, sizes, pattern, labels)
         kind = rng.choice(["pos", "abs", "abs", "pre", "ord"])
